@@ -38,6 +38,8 @@ pub fn can_be_used(lhs: &Type, rhs: &Type) -> bool {
 }
 
 pub fn exec(iter: Variable, function: Variable) -> ExecResult {
+    #[cfg(feature = "verif")]
+    let _helper = crate::verif::helper_scope();
     let element = iter.as_type().return_type().unwrap();
     let result = FILTER
         .exec_with_args(&[iter, function])?
